@@ -209,12 +209,13 @@ func cmdWorker(args []string) int {
 	_ = syscall.Setrlimit(syscall.RLIMIT_AS, &syscall.Rlimit{Cur: 6 << 30, Max: 6 << 30})
 	var curRun atomic.Int64
 	var curStart atomic.Int64
+	k.WatchHang(func() string { return fmt.Sprintf("run %d of %s", curRun.Load(), *prop) })
 	go func() {
 		for {
 			time.Sleep(time.Second)
 			if st := curStart.Load(); st > 0 && time.Now().UnixMilli()-st > 300_000 {
 				fmt.Fprintf(os.Stderr, "WATCHDOG: run %d of %s exceeded 300 s\n", curRun.Load(), *prop)
-				os.Exit(3)
+				os.Exit(5)
 			}
 		}
 	}()
@@ -282,6 +283,31 @@ func cmdReplay(args []string) int {
 		fmt.Fprintln(os.Stderr, err)
 		return 2
 	}
+	if strings.HasPrefix(plan.Expect, "death:") {
+		// the violation is the death of the process: run the plan in a child and classify how it ends
+		self, _ := os.Executable()
+		cmd := exec.Command(self, "exec", "-plan", *path)
+		cmd.Env = append(os.Environ(), "TZ=UTC")
+		var stderr bytes.Buffer
+		cmd.Stderr = &stderr
+		err := cmd.Run()
+		if err == nil {
+			fmt.Println("the plan ran to its end; no death")
+			return 0
+		}
+		v := classifyDeath(stderr.String())
+		if v == nil {
+			fmt.Fprintf(os.Stderr, "child died without a production frame:\n%s\n", firstLines(stderr.String(), 40))
+			return 2
+		}
+		fmt.Printf("violation rule=%s props=%v kind=%s cond=%q frame=%s\n  %s\n", v.Rule, v.Props, v.Kind, v.Cond, v.Frame, firstLines(v.Detail, 30))
+		if "death:"+v.Fingerprint() == plan.Expect || plan.Expect == "death:"+v.Frame {
+			fmt.Printf("VIOLATION property=%s replay=%s\n", plan.Property, *path)
+			return 1
+		}
+		return 0
+	}
+	k.WatchHang(func() string { return "replay " + *path })
 	eng := k.EngineByName(plan.Engine)
 	res, err := eng.Replay(plan, *verbose)
 	if err != nil {
@@ -321,6 +347,7 @@ func cmdExec(args []string) int {
 		fmt.Fprintln(os.Stderr, err)
 		return 2
 	}
+	k.WatchHang(func() string { return "exec " + *path })
 	res, err := k.EngineByName(plan.Engine).Replay(plan, false)
 	if err != nil {
 		fmt.Fprintln(os.Stderr, err)
@@ -341,6 +368,7 @@ func cmdTrace(args []string) int {
 	out := fs.String("out", "", "")
 	_ = fs.Parse(args)
 	k.TraceFile = *out
+	k.WatchHang(func() string { return "trace" })
 	res, err := k.EngineFor(*prop).Generate(*prop, *seed, *run)
 	if err != nil {
 		fmt.Fprintln(os.Stderr, err)
@@ -550,8 +578,29 @@ func cmdCheck(args []string) int {
 				sc := bufio.NewScanner(stdout)
 				sc.Buffer(make([]byte, 1<<20), 1<<28)
 				cur := -1
+				last := from - *workers
 				done := false
+				// a worker that says nothing for ten minutes is killed: infrastructure trouble, never a violation
+				var silent atomic.Int64
+				silent.Store(time.Now().Unix())
+				stopMon := make(chan struct{})
+				var hung atomic.Bool
+				go func() {
+					for {
+						select {
+						case <-stopMon:
+							return
+						case <-time.After(5 * time.Second):
+						}
+						if time.Now().Unix()-silent.Load() > 600 {
+							hung.Store(true)
+							_ = cmd.Process.Kill()
+							return
+						}
+					}
+				}()
 				for sc.Scan() {
+					silent.Store(time.Now().Unix())
 					var wl workerLine
 					if err := json.Unmarshal(sc.Bytes(), &wl); err != nil {
 						continue
@@ -560,6 +609,7 @@ func cmdCheck(args []string) int {
 					case "start":
 						cur = wl.Run
 					case "run":
+						last = wl.Run
 						mu.Lock()
 						a.add(*prop, wl.Result)
 						if len(a.samples) < 2 && wl.Result.Nontrivial && wl.Result.Plan == nil {
@@ -572,8 +622,24 @@ func cmdCheck(args []string) int {
 					}
 				}
 				err = cmd.Wait()
+				close(stopMon)
+				if hung.Load() {
+					fmt.Fprintf(os.Stderr, "worker silent for ten minutes in run %d, killed\n", cur)
+					mu.Lock()
+					infra = true
+					mu.Unlock()
+					return
+				}
 				if done || (err == nil) {
 					return
+				}
+				if ee, ok := err.(*exec.ExitError); ok && ee.ExitCode() == 3 && cur < 0 {
+					// the worker reported a run whose bubble could not be torn down and left; carry on after it
+					if *maxRuns > 0 {
+						return
+					}
+					from = last + *workers
+					continue
 				}
 				// the worker died in run cur
 				mu.Lock()
@@ -604,14 +670,13 @@ func cmdCheck(args []string) int {
 
 	// worker deaths: classify by stack
 	for _, d := range deaths {
-		frame := productionFrame(d.stderr)
-		if frame == "" {
+		v := classifyDeath(d.stderr)
+		if v == nil {
 			fmt.Fprintf(os.Stderr, "worker died without a production frame (run %d):\n%s\n", d.run, firstLines(d.stderr, 40))
 			infra = true
 			continue
 		}
-		msg := panicMessage(d.stderr)
-		v := &k.Violation{Rule: "panic", Props: []string{"C13", "C12"}, Kind: "process", Cond: msg, Frame: frame, Detail: firstLines(d.stderr, 30)}
+		frame := v.Frame
 		fp := v.Fingerprint()
 		relevant := v.Has(*prop)
 		if !relevant {
@@ -634,7 +699,8 @@ func cmdCheck(args []string) int {
 		a.violCount[fp]++
 		a.viol[fp] = &k.RunResult{Property: *prop, Run: d.run, Seed: *seed, Violations: []*k.Violation{v}}
 		if plan, err := loadTrace(tracePath); err == nil {
-			plan.Expect = "death:" + frame
+			plan.Expect = "death:" + fp
+			_ = frame
 			a.viol[fp].Plan = plan
 		}
 	}
@@ -666,8 +732,8 @@ func cmdCheck(args []string) int {
 			plan := r.Plan
 			if !strings.HasPrefix(plan.Expect, "death:") {
 				plan.Expect = fp
-				plan = minimise(self, plan, fp)
 			}
+			plan = minimise(self, plan, fp)
 			plan.Note = fmt.Sprintf("rule %s: %s", viol.Rule, firstLines(viol.Detail, 6))
 			b, _ := json.MarshalIndent(plan, "", " ")
 			_ = os.WriteFile(path, b, 0o644)
@@ -675,7 +741,7 @@ func cmdCheck(args []string) int {
 			rc := exec.Command(self, "replay", "-plan", path)
 			rc.Env = append(os.Environ(), "TZ=UTC")
 			outb, _ := rc.CombinedOutput()
-			if !strings.Contains(string(outb), "VIOLATION property=") && !strings.HasPrefix(plan.Expect, "death:") {
+			if !strings.Contains(string(outb), "VIOLATION property=") {
 				fmt.Fprintf(os.Stderr, "replay of %s did not reproduce %s:\n%s\n", path, fp, firstLines(string(outb), 20))
 				infra = true
 				continue
@@ -696,7 +762,7 @@ func cmdCheck(args []string) int {
 	}
 
 	// evidence
-	samples := eng.Samples(*prop, *seed, 2)
+	samples := samplesOf(eng, *prop, *seed, 2)
 	ruleText := eng.Rule(*prop)
 	comps := map[string]string{}
 	for k2, v := range eng.Components() {
@@ -709,7 +775,7 @@ func cmdCheck(args []string) int {
 			comps["engine "+e2.Name()+": "+k2] = v
 		}
 		assumptions = append(assumptions, e2.Assumptions(*prop)...)
-		samples = append(samples, e2.Samples(*prop, *seed, 1)...)
+		samples = append(samples, samplesOf(e2, *prop, *seed, 1)...)
 	}
 	ev := map[string]any{
 		"property_id": *prop,
@@ -760,7 +826,44 @@ func cmdCheck(args []string) int {
 	return 0
 }
 
-var reFrame = regexp.MustCompile(`(?m)^(github\.com/resonatehq/resonate/[^\s(]+)`)
+var reFrame = regexp.MustCompile(`(?m)^(github\.com/resonatehq/resonate/\S+?)\([^()]*\)$`)
+
+// samplesOf regenerates a few runs in this process for the evidence file; on a tree where
+// runs hang (which the workers have reported by then) it gives up.
+func samplesOf(e k.Engine, prop string, seed int64, n int) []any {
+	ch := make(chan []any, 1)
+	go func() {
+		defer func() {
+			if r := recover(); r != nil {
+				ch <- []any{fmt.Sprintf("sample generation panicked: %v", r)}
+			}
+		}()
+		ch <- e.Samples(prop, seed, n)
+	}()
+	select {
+	case s := <-ch:
+		return s
+	case <-time.After(90 * time.Second):
+		return []any{"sample generation did not finish within 90 s"}
+	}
+}
+
+// classifyDeath turns the stderr of a dead simulation process into a violation: a panic
+// raised in production code, or a hang with every goroutine blocked inside a production call.
+func classifyDeath(stderr string) *k.Violation {
+	if i := strings.Index(stderr, "VERIF-HANG"); i >= 0 {
+		frame := productionFrame(stderr[i:])
+		if frame == "" {
+			return nil
+		}
+		return &k.Violation{Rule: "hang", Props: []string{"C12"}, Kind: "process", Cond: "a production call never returned: every goroutine is blocked", Frame: frame, Detail: firstLines(stderr[i:], 40)}
+	}
+	frame := productionFrame(stderr)
+	if frame == "" {
+		return nil
+	}
+	return &k.Violation{Rule: "panic", Props: []string{"C13", "C12"}, Kind: "process", Cond: panicMessage(stderr), Frame: frame, Detail: firstLines(stderr, 30)}
+}
 
 func productionFrame(stderr string) string {
 	for _, m := range reFrame.FindAllStringSubmatch(stderr, -1) {
@@ -825,8 +928,13 @@ func try(self string, plan *k.Plan, fp string) bool {
 	f.Close()
 	cmd := exec.Command(self, "exec", "-plan", f.Name())
 	cmd.Env = append(os.Environ(), "TZ=UTC")
+	var stderr bytes.Buffer
+	cmd.Stderr = &stderr
 	out, err := cmd.Output()
 	if err != nil {
+		if v := classifyDeath(stderr.String()); v != nil {
+			return v.Fingerprint() == fp
+		}
 		return false
 	}
 	var res k.RunResult
